@@ -238,6 +238,25 @@ theorem lookups_id : ∀ (l pre : List ArgM), ((pre ++ l).map fun a => (a.name, 
     · have := ih (pre ++ [a]) (by simpa [List.append_assoc] using hn)
       simpa [List.append_assoc] using this
 
+/-- looking every element up by a key that is distinct within the list finds that very element -/
+theorem findIdx_self {α β : Type} [BEq β] [LawfulBEq β] (key : α → β) : ∀ (l pre : List α), ((pre ++ l).map key).Nodup →
+    l.map (fun a => findIdxFrom (fun x => key x == key a) (pre ++ l) 0) = (List.range' pre.length l.length).map some := by
+  intro l
+  induction l with
+  | nil => intro pre _; rfl
+  | cons a r ih =>
+    intro pre hn
+    simp only [List.map_cons, List.length_cons, List.range'_succ]
+    congr 1
+    · rw [findIdxFrom_append]
+      · simp [findIdxFrom]
+      · intro x hx
+        rw [List.map_append, List.map_cons] at hn
+        have := (List.nodup_append.mp hn).2.2 (key x) (List.mem_map.mpr ⟨x, hx, rfl⟩) (key a) (by simp)
+        simpa using this
+    · have := ih (pre ++ [a]) (by simpa [List.append_assoc] using hn)
+      simpa [List.append_assoc] using this
+
 theorem byNameDir_id (name : Str) (args : List ArgM) (h : (args.map fun a => (a.name, a.direction)).Nodup) :
     (mkAct name args).byNameDir = (List.range args.length).map some := by
   have := lookups_id args [] (by simpa using h)
